@@ -30,8 +30,12 @@ def _resource_dir():
     return subprocess.check_output(["clang++", "-print-resource-dir"], text=True).strip()
 
 
+EXTRA_DEFINES = []  # additional -D switches of the configuration being analysed (set by load_program)
+
+
 def _hash_tree():
     h = hashlib.sha256()
+    h.update(("defines:" + " ".join(EXTRA_DEFINES)).encode())
     paths = []
     for top in ("include", "src", "cmake"):
         for root, dirs, files in os.walk(os.path.join(REPO, top)):
@@ -124,8 +128,8 @@ def extra_units():
 def _extract_one(job):
     src, flags, out, rdir = job
     cmd = [FACTS_BIN, "--root", REPO + "/include", "--root", REPO + "/src", "--root", VERIF + "/witness",
-           "--root", VERIF + "/fixtures", "-o", out, src, "--"] + flags + ["-resource-dir", rdir, "-UNDEBUG",
-                                                                             "-Wno-everything"]
+           "--root", VERIF + "/fixtures", "-o", out, src, "--"] + flags + ["-D" + m for m in EXTRA_DEFINES] + ["-resource-dir", rdir, "-UNDEBUG",
+                                                                                                                  "-Wno-everything"]
     t0 = time.time()
     r = subprocess.run(cmd, stdout=subprocess.PIPE, stderr=subprocess.STDOUT, text=True)
     return src, r.returncode, r.stdout, time.time() - t0, out
@@ -182,7 +186,65 @@ def build_facts(verbose=False):
         lock.close()
 
 
-def load_program(verbose=False):
+KNOWN_MACROS_FILE = os.path.join(VERIF, "rules", "known_macros.txt")
+
+
+def tested_macros():
+    """identifiers that /repo's own sources test in #if / #ifdef / #ifndef / #elif / defined(...)"""
+    import re
+    out = {}
+    for top in ("include", "src"):
+        for root, dirs, files in os.walk(os.path.join(REPO, top)):
+            dirs.sort()
+            for f in sorted(files):
+                p = os.path.join(root, f)
+                try:
+                    text = open(p, encoding="latin-1").read()
+                except OSError:
+                    continue
+                text = re.sub(r"\\\n", " ", text)
+                lines_ = text.splitlines()
+                for ln, line in enumerate(lines_, 1):
+                    m = re.match(r"\s*#\s*(ifdef|ifndef|if|elif)\b(.*)", line)
+                    if not m:
+                        continue
+                    if m.group(1) == "ifndef":
+                        # include guard: `#ifndef X` directly followed by `#define X`
+                        g = m.group(2).strip()
+                        nxt = next((l for l in lines_[ln:] if l.strip()), "")
+                        if re.match(r"\s*#\s*define\s+%s\b" % re.escape(g), nxt):
+                            continue
+                    rest = re.sub(r"//.*|/\*.*?\*/", "", m.group(2))
+                    for ident in re.findall(r"[A-Za-z_]\w*", rest):
+                        if ident in ("defined", "__has_include", "__has_cpp_attribute", "__has_attribute", "__has_builtin", "__has_feature", "true", "false"):
+                            continue
+                        out.setdefault(ident, "%s:%d" % (p, ln))
+    return out
+
+
+def unknown_switches():
+    """build-time switches the sources test that the frozen table does not know: [(macro, where)]. Reserved identifiers
+    (compiler / platform / library feature macros) are not switches of this repository."""
+    if not os.path.exists(KNOWN_MACROS_FILE):
+        return []
+    known = {l.strip() for l in open(KNOWN_MACROS_FILE) if l.strip() and not l.startswith("#")}
+    out = []
+    for m, where in sorted(tested_macros().items()):
+        if m in known or m.startswith("__") or (m.startswith("_") and m[1:2].isupper()):
+            continue
+        out.append((m, where))
+    return out
+
+
+def load_program(verbose=False, defines=()):
+    EXTRA_DEFINES[:] = list(defines)
+    try:
+        return _load_program(verbose)
+    finally:
+        EXTRA_DEFINES[:] = []
+
+
+def _load_program(verbose=False):
     cdir, man = build_facts(verbose)
     lib_failed = [e for e in man["failed"] if e["src"].startswith(REPO)]
     if lib_failed:
